@@ -40,7 +40,10 @@ class S:
 
 SCENARIOS_CLIENT = ["c-open", "c-hclocal", "c-resp-started", "c-reserved", "c-parent-reset",
                     # the reset falls between the HEADERS / PUSH_PROMISE frame of a block and the CONTINUATION that completes it
-                    "c-midblock-resp", "c-midblock-push", "c-reserved+refused", "c-reserved+cancel"]
+                    "c-midblock-resp", "c-midblock-push", "c-reserved+refused", "c-reserved+cancel",
+                    # a second request stream (3) stays open next to the one that is reset: frames the peer sends on IT (a
+                    # promise, its response) must not change how racing frames on the reset stream are treated
+                    "c-open-with-other"]
 SCENARIOS_SERVER = ["s-open", "s-hcremote", "s-hclocal", "s-reserved", "s-midblock-trailers",
                     # the newest stream of the peer turned away with REFUSED_STREAM / CANCEL instead of the default code
                     "s-open+refused", "s-open+cancel", "s-hcremote+refused"]
@@ -80,6 +83,8 @@ class Spec:
         st.misused = False        # the application has already called a sending method on the reset stream
         st.mcs = mcs
         st.midblock = None        # (sid, rest of the block, kind): only the completing CONTINUATION may come next
+        st.other = None           # client role: a second request stream that stays open
+        st.badpush = False
         scen, _, codename = scen.partition("+")
         rkw = {"error_code": CODES[codename]} if codename else {}
         h.rx([wire.settings([], ack=True)])
@@ -90,6 +95,12 @@ class Spec:
             es = scen == "c-hclocal"
             h.api("send_headers", 1, H.ni(H.REQ_POST), end_stream=es)
             st.phase[1] = "none"
+            st.other = None
+            if scen == "c-open-with-other":
+                h.api("send_headers", 3, H.ni(H.REQ_POST))
+                st.other = 3
+                st.next_odd = 5
+                scen = "c-open"
             if scen == "c-resp-started":
                 h.rx([wire.headers(1, self.penc(st, H.RESP + [self.fresh(st)]))], ("headers", 1, False, False))
                 st.phase[1] = "final"
@@ -149,7 +160,7 @@ class Spec:
     def fingerprint(self, st):
         return fingerprint(st.h.conn, st.h.m.key(), st.penc, st.nfresh, st.dead, tuple(sorted(st.dead_ids)),
                            tuple(sorted(st.phase.items())), tuple(sorted(st.can_push)), st.next_even, st.next_odd,
-                           tuple(st.race), st.probed, st.misused, st.midblock)
+                           tuple(st.race), st.probed, st.misused, st.midblock, st.other, st.badpush)
 
     def actions(self, st):
         if st.dead:
@@ -161,6 +172,10 @@ class Spec:
         if st.midblock:
             # a peer that has begun a header block can send nothing but its continuation
             return acts + ["rx:C:%d" % st.midblock[0]]
+        if self.client and st.other and st.next_even < 8:
+            acts.append("rx:PPo:%d" % st.other)          # accepted: the parent is open
+        if not self.client and not st.badpush and any(s.state in ("open", "hc_remote") for s in st.h.m.streams.values() if not s.local_init):
+            acts.append("l:badpush")                      # a push_stream the library refuses for its header list
         if st.probed < 2 and (self.client or st.h.m.count_open(False) + 1 <= st.mcs):
             acts.append("probe")
         for sid in st.race:
@@ -202,6 +217,26 @@ class Spec:
         if lab == "cleanup":
             h.cleanup()
             return Step("cleanup")
+        if lab == "l:badpush":
+            st.badpush = True
+            parent = min(sid for sid, s in h.m.streams.items() if not s.local_init and s.state in ("open", "hc_remote"))
+            o = h.api("push_stream", parent, st.next_even, H.ni([x for x in H.REQ if x[0] != b":path"]))
+            if o.kind == "ok" or o.raw:
+                bad("invalid-push-accepted", "push_stream with a request list lacking :path -> %s" % o.brief())
+                st.dead = True
+                return Step("badpush-accepted", viols, prune=True)
+            return Step("badpush-refused", viols)
+        if lab.startswith("rx:PPo:"):
+            parent = int(lab.split(":")[2])
+            p = st.next_even
+            st.next_even += 2
+            o = h.rx([wire.push_promise(parent, p, self.penc(st, H.REQ + [self.fresh(st)]))], ("push", parent, p))
+            if o.kind == "raise" or any(f.type == wire.RST_STREAM for f in o.frames):
+                bad("valid-push-rejected", "PUSH_PROMISE(%d->%d) on an open stream -> %s" % (parent, p, o.brief()))
+                st.dead = True
+                return Step("ppo-rejected", viols, prune=True)
+            self.check_events(st, o, bad, lab)
+            return Step("ppo", viols)
         if lab.startswith("l:"):
             _, what, sid = lab.split(":")
             sid = int(sid)
